@@ -363,4 +363,33 @@ theorem compound3_moments (hs : LawfulSqrt sq) (eig : M3 K → V3 K × M3 K) (pa
   obtain ⟨s, hs', rfl⟩ := ha
   exact h s hs'
 
+/-- **3-D `−` is subtractive in the moments** (before the eigen-decomposition), above the code's clamp threshold
+`new_mass ≥ f32::EPSILON`: the triple handed to `with_inertia_matrix` has `m = m₁ − m₂`, `m c = m₁c₁ − m₂c₂` and its
+tensor about the origin plus the subtrahend's tensor about the origin is the minuend's. -/
+theorem sub3_raw_moments (a b : MP3 K) (m : K) (c : V3 K) (I : M3 K)
+    (hth : (1 / 8388608 : K) ≤ massOf3 a - massOf3 b) :
+    letI := fieldNum K sq
+    MP3.subRaw a b = some (m, c, I) →
+      m = massOf3 a - massOf3 b ∧
+      c.x * m = a.com.x * massOf3 a - b.com.x * massOf3 b ∧
+      c.y * m = a.com.y * massOf3 a - b.com.y * massOf3 b ∧
+      c.z * m = a.com.z * massOf3 a - b.com.z * massOf3 b ∧
+      madd (madd I (steiner3 m c)) (originTensor sq b) = originTensor sq a := by
+  intro h
+  have he : ((mkRat 1 8388608 : ℚ) : K) = 1 / 8388608 := by norm_num
+  have hth' : ¬ (a.invMass⁻¹ - b.invMass⁻¹ < (1 / 8388608 : K)) := not_lt.2 hth
+  have hpos : a.invMass⁻¹ - b.invMass⁻¹ ≠ 0 := by
+    have : (0 : K) < 1 / 8388608 := by norm_num
+    exact (lt_of_lt_of_le this hth).ne'
+  unfold MP3.subRaw at h
+  split_ifs at h
+  simp only [Option.some.injEq, Prod.mk.injEq, shifted3_spec, inv_spec, eps32, fieldNum_lit, he, if_neg hth'] at h
+  obtain ⟨rfl, rfl, rfl⟩ := h
+  simp only [massOf3, originTensor, V3.add, V3.smul, V3.sub, M3.sub, madd, steiner3]
+  set m1 := a.invMass⁻¹
+  set m2 := b.invMass⁻¹
+  refine ⟨trivial, by field_simp, by field_simp, by field_simp, ?_⟩
+  congr 1 <;> congr 1 <;> (field_simp; ring)
+
+
 end C13
